@@ -16,7 +16,7 @@ from harness.util import import_df, js, attempt
 
 df = import_df()
 
-UN_IDS = {"absolute": 0, "conjugate": 3, "sin": 10, "cos": 11, "exp": 12, "tanh": 13, "arctan": 14,
+UN_IDS = {"sqrt": 5, "absolute": 0, "conjugate": 3, "sin": 10, "cos": 11, "exp": 12, "tanh": 13, "arctan": 14,
           "square": 15, "negative": 16, "sign": 17, "floor": 18}
 UN_REAL_ONLY = {"sign", "floor"}
 BIN_IDS = {"arctan2": 10, "maximum": 11, "minimum": 12, "hypot": 13}
@@ -25,6 +25,7 @@ U_ABS, U_PHASE, U_SQRT, U_ARCCOS, B_POW = 0, 4, 5, 6, 0
 ALG = {"add": "Add", "sub": "Sub", "mul": "Mul", "div": "Div", "pow": "Pow"}
 LABELS = ["a", "b", "c", "d", "p", "q", "r", "s", "u", "w", "ab", "abc", "p_1", "Q"]
 KNOWN_COMM = "C03-commutative-distinct-labels"
+KNOWN_LSHIFT = "C03-lshift-percell-array"
 
 
 # ------------------------------------------------------------------ exact complex rationals
@@ -166,6 +167,8 @@ def const_py(e, n):
         return tuple(vs) if e[3] == "tuple" else list(vs)
     if e[0] == "arr":
         vs = [num_py(v) for v in e[2]]
+        if ct == "nested":           # list of lists ... of lists, same shape as the per-cell ndarray
+            return np.array(vs).reshape(*n, e[1]).tolist()
         if ct is not None:
             return np.array([int(v) for v in vs] if ct in INT_KINDS else vs, dtype=DTYPES[ct]).reshape(*n, e[1])
         return np.array(vs).reshape(*n, e[1])
@@ -441,7 +444,7 @@ def ev_ref(e, ctx):
             ctx.tab1(U_SQRT, sa, to_exact(sa), na)
             ctx.tab1(U_SQRT, sb, to_exact(sb), nb)
             q = d / (na * nb)
-            if np.any(np.abs(q) > 1 - 1e-6):
+            if fa.shape[-1] != 1 and np.any(np.abs(q) > 1 - 1e-6):
                 raise FloatingPointError("angle too close to 0 or pi")
             r = np.arccos(q)
             ctx.tab1(U_ARCCOS, q, to_exact(q), r)
@@ -468,6 +471,82 @@ def ev_ref(e, ctx):
         vb = b.valid if b.valid is not None else True
         return Ref(r, rex, np.logical_and(va, vb), a.leaves + b.leaves)
     raise ValueError(k)
+
+
+def ev_np(e, leaf_data, n):
+    """plain numpy evaluation (no exact arithmetic, non-finite values allowed):
+    (array or constant, validity or None, is_field)"""
+    k = e[0]
+    if k == "leaf":
+        arr, valid = leaf_data[e[1]]
+        return arr, valid, True
+    if is_const(e):
+        return const_py(e, n), None, False
+    if k == "un":
+        op, arg = e[1], e[2]
+        x, v, _ = ev_np(e[3], leaf_data, n)
+        if op == "pos":
+            return x, v, True
+        r = {"neg": lambda: -x, "abs": lambda: np.abs(x), "cabs": lambda: np.abs(x),
+             "real": lambda: np.real(x).copy(), "imag": lambda: np.imag(x).copy(),
+             "conj": lambda: np.conjugate(x), "phase": lambda: np.angle(x),
+             "comp": lambda: x[..., arg:arg + 1], "uf1": lambda: getattr(np, arg)(x)}[op]()
+        return field_dtype(r), v, True
+    op, arg = e[1], e[2]
+    a, va, fa_ = ev_np(e[3], leaf_data, n)
+    b, vb, fb_ = ev_np(e[4], leaf_data, n)
+    alg = op if op in ALG else None
+    if op == "uf2" and arg in BIN_ALG:
+        alg = {"add": "add", "subtract": "sub", "multiply": "mul", "divide": "div", "power": "pow"}[arg]
+    if alg is not None:
+        r = {"add": np.add, "sub": np.subtract, "mul": np.multiply, "div": np.divide, "pow": np.power}[alg](a, b)
+    elif op == "uf2":
+        r = getattr(np, arg)(a, b)
+    elif op == "dot":
+        r = np.sum(np.asarray(a) * np.asarray(b), axis=-1, keepdims=True)
+    elif op == "cross":
+        a_, b_ = np.broadcast_arrays(np.asarray(a), np.asarray(b))
+        r = np.cross(a_, b_)
+    elif op == "angle":
+        a_ = np.asarray(a)
+        b_ = np.broadcast_to(np.asarray(b), a_.shape)
+        r = np.arccos(np.sum(a_ * b_, axis=-1, keepdims=True)
+                      / (np.linalg.norm(a_, axis=-1, keepdims=True) * np.linalg.norm(b_, axis=-1, keepdims=True)))
+    elif op == "stack":
+        sh = tuple(n)
+        a_, b_ = np.asarray(a), np.asarray(b)
+        if not fa_:
+            a_ = np.broadcast_to(a_, sh + (a_.shape[-1] if a_.ndim else 1,))
+        if not fb_:
+            b_ = np.broadcast_to(b_, sh + (b_.shape[-1] if b_.ndim else 1,))
+        r = np.concatenate([field_dtype(a_), field_dtype(b_)], axis=-1)
+    else:
+        raise ValueError(op)
+    r = field_dtype(r)
+    if r.ndim != len(n) + 1:
+        raise ValueError("result is not a field array")
+    return r, np.logical_and(True if va is None else va, True if vb is None else vb), True
+
+
+def same_pattern(got, want, rel):
+    """NaN-aware comparison of raw arrays in EVERY cell: nan where nan, +-inf where +-inf, finite values
+    equal up to rel * (largest finite magnitude)"""
+    got, want = np.asarray(got), np.asarray(want)
+    if got.shape != want.shape:
+        return False
+    for part in (np.real, np.imag):
+        g_, w_ = part(got).astype(float), part(want).astype(float)
+        if not np.array_equal(np.isnan(g_), np.isnan(w_)):
+            return False
+        inf = np.isinf(w_)
+        if not np.array_equal(np.isinf(g_), inf) or not np.array_equal(g_[inf], w_[inf]):
+            return False
+        fin = np.isfinite(w_)
+        if fin.any():
+            scale = float(np.max(np.abs(w_[fin])))
+            if np.any(np.abs(g_[fin] - w_[fin]) > rel * scale):
+                return False
+    return True
 
 
 # ------------------------------------------------------------------ Gallina encoding
@@ -707,7 +786,7 @@ class Gen:
                 return ["bin", "dot", rng.choice(["m", "op"]) if not is_const(b) else "m", a, b]
             k = rng.choice([2, 3])
             a = self.fexpr(max(0, depth - 2), k, True)
-            b = self.vec(k, False) if rng.random() < 0.5 else self.fexpr(0, k, True)
+            b = rng.choice([self.vec(k, False), self.fexpr(0, k, True), self.arr(k)])
             return ["bin", "angle", None, a, b]
         if r < 0.50 and nv == 3:   # cross
             a = self.fexpr(depth - 1, 3, real_only)
@@ -1012,7 +1091,7 @@ def reuse_case(rng, tier):
         gen = Gen(rng, tier, "exact", meshes, allow_cplx=False)
         k = rng.choice([2, 3])
         a = gen.leaf(k, dtype="float", reuse=False)
-        b = gen.vec(k, False) if rng.random() < 0.5 else gen.leaf(k, dtype="float", reuse=False)
+        b = rng.choice([gen.vec(k, False), gen.leaf(k, dtype="float", reuse=False), gen.arr(k)])
         e = ["bin", "angle", None, a, b]
         if rng.random() < 0.4:
             e = ["bin", rng.choice(["mul", "add"]), None, e, gen.leaf(1, dtype="float", reuse=False)]
@@ -1056,6 +1135,92 @@ def reuse_case(rng, tier):
     return c
 
 
+def nonfinite_case(rng, tier):
+    """zero cells (whole vectors) that are masked invalid, and expressions that are non-finite exactly there:
+    x/0, 0/0, 0**-1, inf*0, inf-inf; also the same data with the zeros left valid"""
+    meshes = [gen_mesh(rng, tier)]
+    while math.prod(meshes[0]["n"]) < 3:
+        meshes = [gen_mesh(rng, tier)]
+    ncell = math.prod(meshes[0]["n"])
+    gen = Gen(rng, tier, "exact", meshes, allow_cplx=False)
+    dt = rng.choice(["float", "float", "float", "complex", "float32"])
+    zeros = [rng.random() < 0.35 for _ in range(ncell)]
+    zeros[rng.randrange(ncell)] = True
+    zeros[(zeros.index(True) + 1) % ncell] = False
+    mask_kind = rng.choice(["norm", "norm", "norm", "norm+", "all", "inverse"])
+
+    def field(nv, zero_cells=True, dtype=dt):
+        fd = gen_field(rng, 0, meshes, nv, "exact", dtype)
+        for c_ in range(ncell):
+            if zero_cells and zeros[c_]:
+                for j in range(nv):
+                    fd["vals"][c_ * nv + j] = ["0/1", "0/1"]
+        fd["valid"] = {"norm": [not z for z in zeros],
+                       "norm+": [(not z) and rng.random() < 0.7 for z in zeros],
+                       "all": [True] * ncell,
+                       "inverse": list(zeros)}[mask_kind if zero_cells else rng.choice(["all", "norm"])]
+        gen.fields.append(fd)
+        return ["leaf", len(gen.fields) - 1]
+    k = rng.choice([1, 2, 3])
+    b = field(1)                      # scalar with zero cells
+    form = rng.choice(["v/b", "v/b", "c/b", "v/v", "b**-1", "(c/b)*b", "(c/b)-(c/b)", "v/|v|", "np.divide", "b/b"])
+    one = ["num", bool(rng.random() < 0.3), [g.qs(F(rng.randint(1, 6))), "0/1"]]
+    if form == "v/b":
+        e = ["bin", "div", None, field(k, zero_cells=rng.random() < 0.6), b]
+    elif form == "c/b":
+        e = ["bin", "div", None, one, b]
+    elif form == "v/v":
+        v = field(k)
+        e = ["bin", "div", None, v, v]
+    elif form == "b/b":
+        e = ["bin", "div", None, b, ["un", "neg", None, b]]
+    elif form == "b**-1":
+        e = ["bin", "pow", None, b, ["num", False, ["-1/1", "0/1"]]]
+    elif form == "(c/b)*b":
+        e = ["bin", "mul", None, ["bin", "div", None, one, b], rng.choice([b, field(k)])]
+    elif form == "(c/b)-(c/b)":
+        x = ["bin", "div", None, one, b]
+        e = ["bin", "sub", None, x, ["bin", "div", None, ["num", False, ["2/1", "0/1"]], b]]
+    elif form == "v/|v|":
+        v = field(k)
+        nrm = ["un", "uf1", "sqrt", ["bin", "dot", "m", v, v]] if dt != "complex" else ["un", "abs", None, b]
+        e = ["bin", "div", None, v, nrm]
+    else:
+        e = ["bin", "uf2", "divide", field(k, zero_cells=rng.random() < 0.6), b]
+    return dict(kind="nonfinite", regime="exact", meshes=meshes, fields=gen.fields, expr=e, expect="accept",
+                form=form, mask=mask_kind)
+
+
+def arraylike_case(rng, tier):
+    """every method that takes 'a field or something array-like', driven with per-cell ndarrays, nested
+    lists, (nvdim,) vectors and numbers on meshes with more than one cell"""
+    meshes = [gen_mesh(rng, tier)]
+    while math.prod(meshes[0]["n"]) < 2:
+        meshes = [gen_mesh(rng, tier)]
+    regime = rng.choice(["exact", "exact", "scale"])
+    gen = Gen(rng, tier, regime, meshes, allow_cplx=False)
+    op = rng.choice(["angle", "angle", "angle", "dot", "cross", "stack", "add", "sub", "mul", "div"])
+    k = 3 if op == "cross" else rng.choice([1, 2, 3, 4])
+    a = gen.leaf(k, dtype=rng.choice(["float", "float", "int"]), reuse=False)
+    kinds = ["arr", "arr", "nested", "vec"] + (["num"] if k == 1 and op not in ("dot", "cross") else [])
+    if k == 1 and op in ("angle",):
+        kinds = ["arr", "nested", "num"]
+    kind = rng.choice(kinds)
+    if kind == "arr":
+        b = gen.arr(k)
+    elif kind == "nested":
+        b = gen.arr(k) + ["nested"]
+    elif kind == "vec":
+        b = gen.vec(k, False)
+    else:
+        b = gen.num(False)
+    arg = "m" if op in ("dot", "cross") else None
+    e = ["bin", op, arg, a, b]
+    if kind == "arr" and op in ("add", "mul", "sub", "div") and rng.random() < 0.3:
+        e = ["bin", op, arg, b, a]
+    return dict(kind="arraylike", regime=regime, meshes=meshes, fields=gen.fields, expr=e, expect="accept")
+
+
 def generate(rng, tier):
     cases = []
     q = tier == "quick"
@@ -1073,6 +1238,10 @@ def generate(rng, tier):
         cases.append(typed_case(rng, tier))
     for _ in range(130 if q else 700):
         cases.append(reuse_case(rng, tier))
+    for _ in range(90 if q else 500):
+        cases.append(nonfinite_case(rng, tier))
+    for _ in range(110 if q else 600):
+        cases.append(arraylike_case(rng, tier))
     return cases
 
 
@@ -1251,7 +1420,27 @@ def run_case(c):
     if st == "ok" and not np.all(np.isfinite(np.asarray(r.array))):
         ref_err = "nonfinite"
     if ref_err == "nonfinite":
-        # division by zero / overflow somewhere: only the operand snapshot clause applies
+        # division by zero / overflow / 0/0 somewhere: outside the rational model (no Coq record); the raw
+        # array is compared with numpy's own result in EVERY cell, valid or not, nan-aware
+        if st == "ok":
+            try:
+                with np.errstate(all="ignore"):
+                    want, want_valid, _ = ev_np(e, ctx.leaf_data, n)
+                low = 1e-4 if ctx.rel > 1e-9 else 1e-9
+                if not same_pattern(r.array, want, low):
+                    rec["oracle"].append("array-not-cellwise-nonfinite")
+                if not np.array_equal(r.valid, want_valid if want_valid is not None else np.ones(n, bool)):
+                    rec["oracle"].append("validity-not-and-of-operands")
+                obs["nonfinite_compared"] = True
+            except Exception as ex:  # noqa: BLE001  (numpy itself rejects the expression)
+                obs["nonfinite_compared"] = type(ex).__name__
+        elif expect == "accept":
+            try:
+                with np.errstate(all="ignore"):
+                    ev_np(e, ctx.leaf_data, n)
+                rec["oracle"].append("valid-expression-rejected")
+            except Exception:  # noqa: BLE001
+                pass
         rec.update(obs=obs, coq=None, key=key + "/nonfinite", size=size, nontrivial=False)
         rec["oracle"] = sorted(set(rec["oracle"]))
         return rec
@@ -1341,6 +1530,21 @@ def run_case(c):
             st_a, fa = attempt(lambda: ev_impl(e[3], leaves, n, consts))
             if isinstance(fa, df.Field) and fa.nvdim == r.nvdim and vec_labels(r) != vec_labels(fa):
                 rec["oracle"].append("result-labels-not-operands")
+        if e[0] == "bin" and e[1] in ("angle", "dot", "cross", "stack", "add", "sub", "mul", "div") \
+                and is_const(e[4]) and e[4][0] in ("arr", "vec") and isinstance(leaves and consts.get(id(e[4])), (np.ndarray, list, tuple)):
+            # the array-like operand and the same values wrapped into a Field must give the same result
+            st_a, fa = attempt(lambda: ev_impl(e[3], leaves, n, consts))
+            if isinstance(fa, df.Field):
+                other = consts[id(e[4])]
+                kk = np.shape(other)[-1]
+                st_w, fw = attempt(lambda: df.Field(fa.mesh, nvdim=kk, value=np.broadcast_to(
+                    np.asarray(other), (*n, kk)).copy()))
+                if st_w == "ok":
+                    st_f, rf = attempt(lambda: ev_impl(["bin", e[1], e[2], ["leaf", 0], ["leaf", 1]], [fa, fw], n))
+                    if st_f == "ok" and isinstance(rf, df.Field):
+                        if not (rf.nvdim == r.nvdim and np.array_equal(rf.valid, r.valid)
+                                and same_pattern(r.array, rf.array, max(ctx.rel, 1e-9))):
+                            rec["oracle"].append("arraylike-differs-from-field")
         if c["kind"] == "stackcomp":
             f0 = leaves[e_leaf(e)]
             if not (np.array_equal(r.array, field_dtype(f0.array)) and np.array_equal(r.valid, f0.valid)
@@ -1350,6 +1554,10 @@ def run_case(c):
         ro = None
         if expect == "accept" and ref is not None:
             rec["oracle"].append("valid-expression-rejected")
+            if (e[0] == "bin" and e[1] == "stack" and any(is_const(x) and x[0] == "arr" and x[1] != n[0]
+                                                          for x in (e[3], e[4]))):
+                # known: << wraps an array operand with nvdim=len(other), i.e. n[0] for a per-cell array
+                rec["tags"].append(KNOWN_LSHIFT)
     # --- Gallina record
     coq = None
     if ref is not None or st != "ok":
